@@ -27,6 +27,7 @@ import (
 	"github.com/vulcand/oxy/v2/buffer"
 	"github.com/vulcand/oxy/v2/cbreaker"
 	"github.com/vulcand/oxy/v2/connlimit"
+	"github.com/vulcand/oxy/v2/internal/holsterv4/clock"
 	"github.com/vulcand/oxy/v2/internal/holsterv4/collections"
 	"github.com/vulcand/oxy/v2/memmetrics"
 	"github.com/vulcand/oxy/v2/ratelimit"
@@ -40,7 +41,7 @@ import (
 )
 
 func TestMain(m *testing.M) {
-	vstat.Rule("Generated concurrent programs: one middleware instance (roundrobin with sticky sessions, rebalancer, circuit breaker cycling through all states, RTMetrics, rate limiter, connection limiter, TTL map, tracer) or a stack of 2-5 of them, G = 2-8 goroutines, each a sequence of 20-200 operations drawn from that instance's concurrent API (ServeHTTP with generated status/source/cookie, UpsertServer/RemoveServer/Servers/ServerWeight/NextServer, Record/TotalCount/NetworkErrorRatio/ResponseCodeRatio/StatusCodesCounts/LatencyHistogram/Export/Reset, Set/Get/Len/Increment). Real clock, real goroutines. Oracle: (a) the Go race detector (happens-before; halt_on_error) over the whole run, (b) exact totals after join (no lost update): TotalCount / per-status counts / network errors == operations issued, trace records == requests, handler invocations == admitted requests, balancer selections are exactly proportional, all connection slots returned. Non-trivial: >= 2 goroutines on the same instance with >= 1 writer-type operation each. The rebalancer's scripted meters also verify that every outcome recorded on them carries their own server's digit (last digit of the status code).")
+	vstat.Rule("Generated concurrent programs: one middleware instance (roundrobin with sticky sessions, rebalancer, circuit breaker cycling through all states, RTMetrics, rate limiter, connection limiter, TTL map, tracer) or a stack of 2-5 of them, G = 2-8 goroutines, each a sequence of 20-200 operations drawn from that instance's concurrent API (ServeHTTP with generated status/source/cookie, UpsertServer/RemoveServer/Servers/ServerWeight/NextServer, Record/TotalCount/NetworkErrorRatio/ResponseCodeRatio/StatusCodesCounts/LatencyHistogram/Export/Reset, Set/Get/Len/Increment). Real clock, real goroutines. Oracle: (a) the Go race detector (happens-before; halt_on_error) over the whole run, (b) exact totals after join (no lost update): TotalCount / per-status counts / network errors == operations issued, trace records == requests, handler invocations == admitted requests, balancer selections are exactly proportional, all connection slots returned. Non-trivial: >= 2 goroutines on the same instance with >= 1 writer-type operation each. The rebalancer's scripted meters also verify that every outcome recorded on them carries their own server's digit (last digit of the status code). TestC09_MetricsAcrossTicks: frozen clock advanced by one goroutine (1 s, fractions, 999/1001 ms) while 2-8 others record and read; 200 x 1 s window; exact totals after join. The connection limiter instance also checks the peak concurrency per source and, after join, that exactly the limit can be held with one more refused.")
 	vstat.Main(m.Run)
 }
 
@@ -449,7 +450,25 @@ func newRateLimiter() *instance {
 	rs := ratelimit.NewRateSet()
 	_ = rs.Add(time.Second, 5, 10)
 	_ = rs.Add(time.Minute, 100, 200)
-	tl, err := ratelimit.New(statusHandler(&served), srcExtractor, rs, ratelimit.Capacity(8)) // 4 sources: within capacity
+	// the (user-supplied) rate extractor is where the newcomer's opening requests meet: each waits,
+	// for a bounded number of scheduler turns, until no further one has arrived for a while, so
+	// that they go on to the limiter's look-up of the unknown source together
+	var arrivals atomic.Int64
+	meet := ratelimit.RateExtractorFunc(func(r *http.Request) (*ratelimit.RateSet, error) {
+		if r.Header.Get("X-Src") == "newcomer" {
+			n := arrivals.Add(1)
+			for i, quiet := 0, 0; i < 3000 && quiet < 40; i++ {
+				runtime.Gosched()
+				if m := arrivals.Load(); m != n {
+					n, quiet = m, 0
+				} else {
+					quiet++
+				}
+			}
+		}
+		return rs, nil
+	})
+	tl, err := ratelimit.New(statusHandler(&served), srcExtractor, rs, ratelimit.Capacity(8), ratelimit.ExtractRates(meet)) // 4 sources: within capacity
 	if err != nil {
 		panic(err)
 	}
@@ -489,7 +508,34 @@ func newRateLimiter() *instance {
 
 func newConnLimiter() *instance {
 	var served atomic.Int64
-	cl, err := connlimit.New(statusHandler(&served), srcExtractor, 2)
+	const limit = 2
+	// the protected handler takes a few scheduler turns, so requests of one source overlap and
+	// some are refused; it counts how many of each source are inside at once. A request marked
+	// X-Hold parks inside until released (used after the concurrent phase).
+	var inside [3]atomic.Int64
+	var peak atomic.Int64
+	entered, release := make(chan struct{}, 16), make(chan struct{})
+	inner := statusHandler(&served)
+	handler := http.HandlerFunc(func(w http.ResponseWriter, r *http.Request) {
+		i := 0
+		if src := r.Header.Get("X-Src"); len(src) > 1 {
+			i = int(src[1]-'0') % 3
+		}
+		if n := inside[i].Add(1); n > peak.Load() {
+			peak.Store(n)
+		}
+		if r.Header.Get("X-Hold") != "" {
+			entered <- struct{}{}
+			<-release
+		} else {
+			for k := 0; k < 3; k++ {
+				runtime.Gosched()
+			}
+		}
+		inside[i].Add(-1)
+		inner.ServeHTTP(w, r)
+	})
+	cl, err := connlimit.New(handler, srcExtractor, limit)
 	if err != nil {
 		panic(err)
 	}
@@ -506,6 +552,9 @@ func newConnLimiter() *instance {
 			if served.Load() != ok.Load() {
 				return fmt.Sprintf("%d admitted, handler invoked %d times", ok.Load(), served.Load())
 			}
+			if p := peak.Load(); p > limit {
+				return fmt.Sprintf("%d requests of one source were inside the handler at once, the limit is %d (a booking was lost)", p, limit)
+			}
 			// every slot must be back: two sequential requests per source pass
 			for _, src := range []string{"s0", "s1", "s2"} {
 				for i := 0; i < 3; i++ {
@@ -514,6 +563,37 @@ func newConnLimiter() *instance {
 					if rec.Code != 200 {
 						return fmt.Sprintf("after all requests finished a sequential request of %s is rejected (%d): a slot was lost", src, rec.Code)
 					}
+				}
+			}
+			// and the books are exact: with the limit parked inside, one more is refused
+			for _, src := range []string{"s0", "s1", "s2"} {
+				var wg sync.WaitGroup
+				for i := 0; i < limit; i++ {
+					wg.Add(1)
+					go func() {
+						defer wg.Done()
+						req := request("serve:200:" + src)
+						req.Header.Set("X-Hold", "1")
+						cl.ServeHTTP(httptest.NewRecorder(), req)
+					}()
+				}
+				for i := 0; i < limit; i++ {
+					select {
+					case <-entered:
+					case <-time.After(20 * time.Second):
+						close(release)
+						return fmt.Sprintf("after all requests finished, %s cannot have %d requests in flight (limit %d): a slot was lost", src, limit, limit)
+					}
+				}
+				rec := httptest.NewRecorder()
+				extra := request("serve:200:" + src)
+				cl.ServeHTTP(rec, extra)
+				for i := 0; i < limit; i++ {
+					release <- struct{}{}
+				}
+				wg.Wait()
+				if rec.Code != http.StatusTooManyRequests {
+					return fmt.Sprintf("with %d requests of %s parked inside the handler (limit %d) one more got status %d: the in-flight count is off (a counter update was lost)", limit, src, limit, rec.Code)
 				}
 			}
 			return ""
@@ -856,4 +936,90 @@ func TestC09_Fixed(t *testing.T) {
 		}
 		vstat.Case("fixed|"+kind, true, []string{"fixed-program", "kind=" + strings.SplitN(kind, ":", 2)[0]}, map[string]any{"kind": kind, "goroutines": 6, "operations": 900})
 	}
+}
+
+// TestC09_MetricsAcrossTicks: the rolling counters behind the metrics (and so behind the
+// breaker's and the rebalancer's decisions) turn over once per second; requests complete on
+// several goroutines while that happens. The harness owns the clock here: it is frozen and one
+// goroutine advances it (whole seconds or fractions) while G others record outcomes and read the
+// metrics. The window (200 s) is longer than all the time that passes, so every record must
+// still be counted at the end: no counter update is lost at a turn-over either.
+func TestC09_MetricsAcrossTicks(t *testing.T) {
+	rapid.Check(t, func(t *rapid.T) {
+		clock.Freeze(time.Date(2026, 5, 1, 12, 0, 0, 0, time.UTC).Add(time.Duration(rapid.Int64Range(0, int64(time.Second)-1).Draw(t, "phase"))))
+		defer clock.Unfreeze()
+		m, err := memmetrics.NewRTMetrics(memmetrics.RTCounter(func() (*memmetrics.RollingCounter, error) {
+			return memmetrics.NewCounter(200, time.Second)
+		}))
+		if err != nil {
+			t.Fatal(err)
+		}
+		G := rapid.IntRange(2, 8).Draw(t, "goroutines")
+		perG := rapid.IntRange(50, 400).Draw(t, "recordsPerGoroutine")
+		step := rapid.SampledFrom([]time.Duration{time.Second, time.Second, 500 * time.Millisecond, 250 * time.Millisecond, 999 * time.Millisecond, 1001 * time.Millisecond}).Draw(t, "tick")
+		yields := rapid.IntRange(0, 20).Draw(t, "yieldsBetweenTicks")
+		readers := rapid.Bool().Draw(t, "readersToo")
+		codes := []int{200, 502, 500, 504, 404}
+		var records, neterr atomic.Int64
+		var perCode [5]atomic.Int64
+		var wg sync.WaitGroup
+		done := make(chan struct{})
+		startGate := make(chan struct{})
+		for g := 0; g < G; g++ {
+			wg.Add(1)
+			go func(g int) {
+				defer wg.Done()
+				<-startGate
+				for i := 0; i < perG; i++ {
+					k := (g + i) % len(codes)
+					m.Record(codes[k], time.Duration(1+i%7)*time.Millisecond)
+					records.Add(1)
+					perCode[k].Add(1)
+					if codes[k] == 502 || codes[k] == 504 {
+						neterr.Add(1)
+					}
+					if readers && i%16 == g {
+						_ = m.NetworkErrorRatio()
+						_ = m.TotalCount()
+					}
+				}
+			}(g)
+		}
+		var ticks int
+		var tw sync.WaitGroup
+		tw.Add(1)
+		go func() {
+			defer tw.Done()
+			<-startGate
+			for ticks < 150 {
+				select {
+				case <-done:
+					return
+				default:
+				}
+				clock.Advance(step)
+				ticks++
+				for k := 0; k < yields; k++ {
+					runtime.Gosched()
+				}
+			}
+		}()
+		close(startGate)
+		wg.Wait()
+		close(done)
+		tw.Wait()
+		if got := m.TotalCount(); got != records.Load() {
+			t.Fatalf("lost update: %d Record calls on %d goroutines while the clock advanced %d x %v (window 200 s), TotalCount() = %d", records.Load(), G, ticks, step, got)
+		}
+		if got := m.NetworkErrorCount(); got != neterr.Load() {
+			t.Fatalf("lost update: %d network-error records while the clock advanced %d x %v (window 200 s), NetworkErrorCount() = %d", neterr.Load(), ticks, step, got)
+		}
+		counts := m.StatusCodesCounts()
+		for k, c := range codes {
+			if counts[c] != perCode[k].Load() {
+				t.Fatalf("lost update: status %d recorded %d times while the clock advanced %d x %v, counted %d", c, perCode[k].Load(), ticks, step, counts[c])
+			}
+		}
+		vstat.Case(fmt.Sprintf("ticks|%d|%d|%v|%d|%v", G, perG, step, yields, readers), ticks >= 2, []string{"records-across-counter-turn-overs"}, map[string]any{"goroutines": G, "records_per_goroutine": perG, "tick": step.String(), "ticks": ticks, "readers": readers})
+	})
 }
